@@ -656,3 +656,7 @@ def run(ctx, rep):
     rep.floor("C01.cast", "narrowing casts inspected", castlib.cast_audit(ctx, rep, "C01", ["encode.rs", "decode.rs", "audio.rs", "byteorder.rs"]), 20)
     cachelib.cache_rules(ctx, rep, "C01")
     auditlib.panic_audit(ctx, rep, "C01", ["G_enc"], floor_sites=260)
+    # families shared with other properties (necessary conditions of a lossless round trip as well)
+    from rules import iolib, C03
+    iolib.count_rules(ctx, rep, "C01")
+    C03.run(ctx, SubReport(rep, "C03", "C01.dec", only=r"^C03\.(wide|rfc)$"))
